@@ -327,10 +327,10 @@ var (
 	c28Redeliver = []string{"redeliver-last:same-snapshot", "redeliver-last:new-snapshot:ts-1", "redeliver-last:new-snapshot:ts-equal", "redeliver-last:new-snapshot:ts+1", "redeliver-before:new-snapshot:ts+1"}
 )
 
-const (
-	c28Day0      = 1707 // first batch of this kernel
-	c28CustFunds = 4
-)
+const c28Day0 = 1707 // first batch of this kernel
+
+// c28CustFunds is the number of funded custodian updates per history (= BFS depth).
+var c28CustFunds = 4
 
 func c28EventName(e int) string {
 	if e >= c28NumOffer {
@@ -981,6 +981,7 @@ func TestMC_C28(t *testing.T) {
 	c28Honest(c, []int{c28Custodian, c28Mint, c28Custodian})
 
 	depth := verifmc.Pick(c, 3, 4)
+	c28CustFunds = depth
 	b := &verifmc.BFS[*c28World]{
 		C: c, NumEvents: c28NumOffer + len(c28Redeliver), MaxDepth: depth,
 		EventName: c28EventName,
